@@ -27,6 +27,12 @@ def monitor(meta, out, designated=None):
             if rel:
                 return ("the working directory was changed to '%s' before the designated path '%s' was examined: the identity is taken from the owner of another directory"
                         % (vlib.unhexs(l.split()[1]), rel[0]))
+    # "AFTER setting up monitoring the daemon switches ... to the non-root owner of the designated path": the owner that
+    # counts is the one the path has once the marks (and the bind mounts they needed) are in place
+    st_i = [i for i, l in enumerate(lines) if l.startswith("stat ")]
+    mk_i = [i for i, l in enumerate(lines) if l.startswith(("mark ", "mount ", "faninit"))]
+    if st_i and mk_i and st_i[0] < mk_i[-1]:
+        return "the designated path was examined (%s) before monitoring was set up (%s comes later): its owner may be another one afterwards" % (lines[st_i[0]], lines[mk_i[-1]])
     if not lines or not lines[-1].startswith(("exit", "end")):
         return "main did not finish: %s" % lines[-2:]
     asroot = [l for l in lines if l.startswith("asroot ")]
